@@ -195,8 +195,20 @@ impl super::DebugSession {
     }
 
     fn should_skip_breakpoint(&mut self, pid: Pid, addr: RelocatedAddress) -> anyhow::Result<bool> {
-        let Some(hit) = self.record_breakpoint_hit(debugger::address::Address::Relocated(addr))
-        else {
+        // records of breakpoints that were set before the program start are keyed by a
+        // global address, try both forms
+        let global_addr = self
+            .debugger
+            .as_ref()
+            .and_then(|dbg| dbg.global_address_of(addr));
+        let hit = self
+            .record_breakpoint_hit(debugger::address::Address::Relocated(addr))
+            .or_else(|| {
+                global_addr.and_then(|global| {
+                    self.record_breakpoint_hit(debugger::address::Address::Global(global))
+                })
+            });
+        let Some(hit) = hit else {
             return Ok(false);
         };
 
